@@ -4,10 +4,8 @@
  * contract; the harness states in its obligations which ones it relies on.
  *
  * Configuration (define before including):
- *   ENV_MALLOC_MAX <n>      largest request the CBMC heap model serves exactly (default 24);
- *                           a larger request fails the run with an ENGINE assertion (bound too small)
- *   ENV_MALLOC_CAP <n>      instead: every block is an object of n bytes (requests <= n asserted);
- *                           cheaper, but accesses in [request, n) are not reported
+ *   ENV_MALLOC_CAP <n>      capacity of every heap object of the CBMC model (default 64); a larger request
+ *                           fails the run with an ENGINE assertion (bound too small)
  *   ENV_MALLOC_FAILS        allocation failure is in scope: env_malloc/env_realloc call
  *                           int h_alloc_fails(uint64_t n) (harness-defined) to decide
  *   ENV_CUSTOM_<X>          the harness supplies env_<x> itself (X in RAND, TIME, FORK, MUTEX, VSNPRINTF, FILE)
@@ -23,9 +21,6 @@
 #endif
 #include "harness.h"
 
-#ifndef ENV_MALLOC_MAX
-#define ENV_MALLOC_MAX 24
-#endif
 
 #ifdef LL2C_CBMC
 #define ENV_ENGINE_ASSERT(c, msg) __CPROVER_assert(c, "ENGINE: " msg)
@@ -40,30 +35,29 @@ uint64_t env_malloc_calls, env_free_calls, env_last_malloc_size;
 int h_alloc_fails(uint64_t n);
 #endif
 
-static uint8_t* env_raw_alloc(uint64_t n) {
+#ifndef ENV_MALLOC_CAP
+#define ENV_MALLOC_CAP 64
+#endif
 #ifdef LL2C_CBMC
-  uint8_t* p;
-#ifdef ENV_MALLOC_CAP
-  ENV_ENGINE_ASSERT(n <= ENV_MALLOC_CAP, "allocation larger than ENV_MALLOC_CAP (bound too small)");
-  p = malloc(ENV_MALLOC_CAP);
-#else
-  ENV_ENGINE_ASSERT(n <= ENV_MALLOC_MAX, "allocation larger than ENV_MALLOC_MAX (bound too small)");
-  __CPROVER_assume(n <= ENV_MALLOC_MAX);
-  /* exact objects: one concrete size per branch keeps CBMC's bounds checks exact */
-  p = 0;
-  switch (n) {
-#define ENV_MC(k) case k: if (k <= ENV_MALLOC_MAX) p = malloc(k ? k : 1); break;
-#define ENV_MC8(b) ENV_MC(b) ENV_MC(b+1) ENV_MC(b+2) ENV_MC(b+3) ENV_MC(b+4) ENV_MC(b+5) ENV_MC(b+6) ENV_MC(b+7)
-    ENV_MC8(0) ENV_MC8(8) ENV_MC8(16) ENV_MC8(24) ENV_MC8(32) ENV_MC8(40) ENV_MC8(48) ENV_MC8(56) ENV_MC8(64) ENV_MC8(72) ENV_MC8(80) ENV_MC8(88) ENV_MC8(96) ENV_MC8(104) ENV_MC8(112) ENV_MC8(120)
-    default: break;
-  }
-#endif
+#include "ll2c_rt.h"
+/* CBMC heap model: fixed-capacity objects (symbolic-size objects are intractable, DESIGN 1.3 R1);
+ * the requested size is kept in ll2c_req[] and ll2c --heapcheck asserts every translated byte
+ * access / memcpy / memset against it. */
+uint8_t ll2c_req[1024];
+static uint8_t* env_raw_alloc(uint64_t n) {
+  ENV_ENGINE_ASSERT(n <= ENV_MALLOC_CAP && n < 255, "allocation larger than ENV_MALLOC_CAP (bound too small)");
+  uint8_t* p = malloc(ENV_MALLOC_CAP);
   __CPROVER_assume(p != 0);
+  ENV_ENGINE_ASSERT(__CPROVER_POINTER_OBJECT(p) < 1024, "object numbers fit the shadow table");
+  ll2c_req[__CPROVER_POINTER_OBJECT(p) & 1023] = (uint8_t)(n + 1);
   return p;
-#else
-  return (uint8_t*)malloc(n ? n : 1);
-#endif
 }
+static void env_raw_free(uint8_t* p) { free(p); }
+static uint64_t env_raw_size(uint8_t* p) { return ll2c_req[__CPROVER_POINTER_OBJECT(p) & 1023] - 1; }
+#else
+static uint8_t* env_raw_alloc(uint64_t n) { return (uint8_t*)malloc(n ? n : 1); }
+static void env_raw_free(uint8_t* p) { free(p); }
+#endif
 
 #ifndef ENV_CUSTOM_MALLOC
 uint8_t* env_malloc(uint64_t n) {
@@ -73,7 +67,7 @@ uint8_t* env_malloc(uint64_t n) {
 #endif
   return env_raw_alloc(n);
 }
-void env_free(uint8_t* p) { env_free_calls++; free(p); }
+void env_free(uint8_t* p) { env_free_calls++; env_raw_free(p); }
 uint8_t* env_realloc(uint8_t* p, uint64_t n) {
 #ifdef ENV_MALLOC_FAILS
   if (h_alloc_fails(n)) return 0;
@@ -194,8 +188,11 @@ uint32_t env_vsnprintf(uint8_t* s, uint64_t n, uint8_t* f, uint8_t* va) {
         if (lng == -1) u = (uint16_t)u; else if (lng <= -2) u = (uint8_t)u;
       }
       uint8_t tmp[24]; int k = 0;
-      unsigned base = (c == 'x' || c == 'X' || c == 'p') ? 16 : 10;
-      do { unsigned dgt = (unsigned)(u % base); tmp[k++] = (uint8_t)(dgt < 10 ? '0' + dgt : (c == 'X' ? 'A' : 'a') + dgt - 10); u /= base; } while (u);
+      if (c == 'x' || c == 'X' || c == 'p') {   /* shifts and masks only: cheap for the solver */
+        do { unsigned dgt = (unsigned)(u & 15); tmp[k++] = (uint8_t)(dgt < 10 ? '0' + dgt : (c == 'X' ? 'A' : 'a') + dgt - 10); u >>= 4; } while (u);
+      } else {
+        do { unsigned dgt = (unsigned)(u % 10); tmp[k++] = (uint8_t)('0' + dgt); u /= 10; } while (u);
+      }
       int len = k + neg + (c == 'p' ? 2 : 0);
       if (!left && !zero) for (int i = len; i < width; i++) env_put(s, n, &pos, ' ');
       if (neg) env_put(s, n, &pos, '-');
@@ -235,10 +232,10 @@ uint8_t* ll2c_ext_stdout = (uint8_t*)(uintptr_t)0x100;
 #ifndef ENV_CUSTOM_NEW
 uint8_t* _Znwm(uint64_t n) { return env_raw_alloc(n); }
 uint8_t* _Znam(uint64_t n) { return env_raw_alloc(n); }
-void _ZdlPv(uint8_t* p) { free(p); }
-void _ZdaPv(uint8_t* p) { free(p); }
-void _ZdlPvm(uint8_t* p, uint64_t n) { (void)n; free(p); }
-void _ZdaPvm(uint8_t* p, uint64_t n) { (void)n; free(p); }
+void _ZdlPv(uint8_t* p) { env_raw_free(p); }
+void _ZdaPv(uint8_t* p) { env_raw_free(p); }
+void _ZdlPvm(uint8_t* p, uint64_t n) { (void)n; env_raw_free(p); }
+void _ZdaPvm(uint8_t* p, uint64_t n) { (void)n; env_raw_free(p); }
 #endif
 uint32_t __cxa_guard_acquire(uint8_t* g) { return *g == 0; }
 void __cxa_guard_release(uint8_t* g) { *g = 1; }
@@ -249,12 +246,8 @@ void __cxa_pure_virtual(void) { ENV_ENGINE_ASSERT(0, "pure virtual call"); }
 static struct { uint8_t* obj; uint8_t* type; } ll2c_caught[4];
 static int ll2c_ncaught;
 uint32_t env_terminate_calls;
-uint8_t* __cxa_allocate_exception(uint64_t n) { uint8_t* p = malloc(n ? n : 1);
-#ifdef LL2C_CBMC
-  __CPROVER_assume(p != 0);
-#endif
-  return p; }
-void __cxa_free_exception(uint8_t* p) { free(p); }
+uint8_t* __cxa_allocate_exception(uint64_t n) { return env_raw_alloc(n); }
+void __cxa_free_exception(uint8_t* p) { env_raw_free(p); }
 uint8_t* __cxa_begin_catch(uint8_t* obj) { ENV_ENGINE_ASSERT(ll2c_ncaught < 4, "caught-exception stack"); ll2c_caught[ll2c_ncaught].obj = obj; ll2c_caught[ll2c_ncaught].type = ll2c_exc.type; ll2c_ncaught++; return obj; }
 void __cxa_end_catch(void) { if (ll2c_ncaught > 0) ll2c_ncaught--; }
 void __cxa_rethrow(void) { ENV_ENGINE_ASSERT(ll2c_ncaught > 0, "rethrow without a caught exception"); ll2c_exc.pending = 1; ll2c_exc.obj = ll2c_caught[ll2c_ncaught - 1].obj; ll2c_exc.type = ll2c_caught[ll2c_ncaught - 1].type; }
@@ -262,7 +255,7 @@ void _ZSt9terminatev(void) { env_terminate_calls++; END_PATH(); }
 void __cxa_call_unexpected(uint8_t* p) { (void)p; env_terminate_calls++; END_PATH(); }
 /* libc names referenced by src/Platforms/Gcc/UtestPlatform.cpp initialisers */
 uint8_t* ll2c_ext_malloc(uint64_t n) { return env_raw_alloc(n); }
-void ll2c_ext_free(uint8_t* p) { free(p); }
+void ll2c_ext_free(uint8_t* p) { env_raw_free(p); }
 uint8_t* ll2c_ext_realloc(uint8_t* p, uint64_t n) { (void)p; (void)n; ENV_ENGINE_ASSERT(0, "libc realloc reached"); return 0; }
 uint8_t* ll2c_ext_memcpy(uint8_t* d, uint8_t* s, uint64_t n) { memcpy(d, s, n); return d; }
 uint8_t* ll2c_ext_memset(uint8_t* d, uint32_t c, uint64_t n) { memset(d, (int)c, n); return d; }
